@@ -59,6 +59,8 @@ class Typestate:
             for c in ir.children(e):
                 st = self.expr(c, st)
             ok = st == "Fresh" and d[1] == 0
+            if d[1] is None:
+                self.computed_index = getattr(self, "computed_index", set()) | {id(e)}
             self.derefs.append((e, ok, e.get("l", 0),
                                 "read through m_p directly after a refill check" if ok else
                                 ("m_p[%s] read without a preceding read_to_buffer()/peek_type() since m_p last moved" % d[1]
@@ -165,6 +167,11 @@ class Typestate:
                 if not a[1] and id(a[0]) in proofs:
                     a[1] = True
                     a[3] = proofs[id(a[0])]
+        for a in out:
+            if not a[1] and id(a[0]) in getattr(self, "computed_index", ()):
+                # a computed offset that no window test is seen to bound: nothing is shown either way
+                a[1] = None
+                a[3] = "m_p[<computed offset>] (%s): no window test was found that bounds the offset" % show(a[0])[:60]
         if any(not m[1] for m in self.moves):
             runs = counted_run_proofs(self.fn)
             self.moves = [(m[0], True, m[2], runs[id(m[0])]) if (not m[1] and id(m[0]) in runs and
